@@ -246,7 +246,11 @@ func runC16(c *core.Ctx, idx int) {
 		switch op.Kind {
 		case "create", "update", "patch":
 			name := op.Name
-			e := &schema.Ent{Id: op.Id, Typ: "widgets", V: map[string]any{"name": name, "zone": "z-" + name, "title": "t-" + name, "code": "code-" + op.Id, "labels": []string{"l-" + op.Id, "shared"}}}
+			var nameV any = name
+			if name == "" {
+				nameV = nil // the optional string cleared: written as null
+			}
+			e := &schema.Ent{Id: op.Id, Typ: "widgets", V: map[string]any{"name": nameV, "zone": "z-" + name, "title": "t-" + name, "code": "code-" + op.Id, "labels": []string{"l-" + op.Id, "shared"}}}
 			target := st
 			if op.Child {
 				target = kst
